@@ -227,6 +227,14 @@ def run(ctx):
                 ctx.check(ok, "R9.3", b.loc(), f"{key}|insert|{k}", f"{key}: SafeParams entry {k!r} must hold the value decoded for the argument declared as {k!r}", instance=f"{key}: safe_params[{k!r}] = decoded {k}")
                 for abb in auth_calls:
                     ctx.check(not dt.derives_from_call(b, t["args"][2], abb, vt), "R9.3", b.loc(), f"{key}|auth-in-safe-params", f"{key}: the auth token flows into SafeParams", nontrivial=False)
+                # "once decoded": the argument is recorded before any further argument is decoded — a request whose later
+                # argument fails to decode still reports the safe arguments decoded before it
+                if src_bb is not None:
+                    cfg_i = CFG(b)
+                    later = [(kind, xbb) for kind, xbb, t2 in ex if xbb != src_bb and cfg_i.dominates(src_bb, xbb) and cfg_i.dominates(xbb, bb)]
+                    ctx.check(not later, "R9.3", b.loc(), f"{key}|recorded-once-decoded|{k}",
+                              f"{key}: the safe argument {k!r} is recorded in SafeParams only after {len(later)} further argument(s) ({sorted({kd for kd, _ in later})}) have been decoded: if one of those fails to decode, {k!r} is missing from the response's safe parameters although it was decoded",
+                              instance=f"{key}: safe_params[{k!r}] inserted before the next argument is decoded")
             if want:
                 # the set is attached to the response *before* the first argument is decoded: a request whose later argument
                 # fails to decode still reports the safe arguments decoded so far
